@@ -214,7 +214,7 @@ def gen_cases(out, tier):
     for sz, o, d in itertools.product([0.5, 3.0, 0.0, -1.0, 0.75], [0.0, -2.5, 7.0], [1, -1, 0, 2, -2]):
         t, kind = cres(lambda b: cbin(b.sz, b.origin, b.direction), lambda: Bin1D(sz, o, d))
         add("bin_new:" + kind, f"CBinNew {cq(sz)} {cq(o)} {cz(d)} {t}", (sz, o, d), kind == "ok")
-    for _ in range(150 if not big else 1500):
+    for _ in range(90 if not big else 1500):
         sz = float(rng.choice(RES_M) * F(2) ** rng.choice(RES_J) * rng.choice([1, 1, 3, 100, 256]))
         o = gen_dy(rng)
         d = rng.choice([1, -1])
@@ -252,7 +252,7 @@ def gen_cases(out, tier):
             {"op": "GridSpec", "params": [enc_num(v) for v in p], "result": kind})
 
     # ---- per grid: point lookup, tile geobox, bbox queries, polygon queries, from_sample_tile
-    ngrids = 70 if not big else 700
+    ngrids = 48 if not big else 700
     for gi in range(ngrids):
         p = gen_params(rng, small=(gi % 2 == 0))
         g = make_grid(p)
@@ -622,8 +622,17 @@ def run(out, tier, scratch):
         "CRS equality assertion of idx_bounds is not part of this model (property C01)",
     ]
     cases = gen_cases(out, tier)
-    fails, log = core.coq_eval_failures(["Base.Result", "Base.QMinMax", "Base.ZRange", "Model.GridSpec", "Model.GridSpecCases"], "case", "check",
-                                        cases, scratch, shard=300)
+    import time as _t
+    _t0 = _t.time()
+    try:
+        fails, log = core.coq_eval_failures(["Base.Result", "Base.QMinMax", "Base.ZRange", "Model.GridSpec", "Model.GridSpecCases"], "case", "check",
+                                        cases, scratch, shard=450)
+    except core.ModelEvalError as e:
+        # a coqc worker died (seen once on a heavily loaded machine): evaluate again with fewer parallel jobs
+        out.notes.append("model evaluation retried after a failed coqc worker: " + e.log[-300:])
+        fails, log = core.coq_eval_failures(["Base.Result", "Base.QMinMax", "Base.ZRange", "Model.GridSpec", "Model.GridSpecCases"], "case", "check",
+                                        cases, scratch, shard=450, tag="retry", jobs=4)
+    out.notes.append(f"case generation + model evaluation finished {_t.time() - out.t0:.1f}s after start (model evaluation {_t.time() - _t0:.1f}s)")
     detail = ""
     if fails:
         detail = "model and implementation differ on: " + " | ".join(cases[i] for i in fails[:5])
